@@ -10,7 +10,9 @@ import time
 
 from contracts import handlers_c as hcx
 from contracts.hspec import VQ_LINE
-from . import handlers_common as hc, handlers_native as hn
+from pyvc import native
+from pyvc.core import TInt
+from . import handlers_common as hc, handlers_native as hn, refmodel as rm
 
 PROP = "C19"
 # C19 = "every version conforms to the shared specification" (the C04/C06/C07/C10 clauses of the handler units) + "the specifications
@@ -82,12 +84,155 @@ def extra_checks(world):
     return out
 
 
+VSTR = {"14": "1.4", "15": "1.5", "20": "2.0", "21": "2.1", "22": "2.2"}
+ORDER = ["14", "15", "20", "21", "22"]
+_GROUPS = {}
+
+
+def _group_key(name, q, case):
+    return (q, tuple(case))
+
+
 def build(world):
-    # every version's handlers against the shared specifications
-    return hc.build_for(world, "C04") 
+    """Two kinds of unit.  (1) every version's handlers against the shared specifications (conformance); (2) for every function
+    that two adjacent versions both resolve to (shared, inherited code) a relational unit: the function under version a and
+    under version b from the same symbolic pre-state must agree (pyvc/relational.py) - shared code may still read
+    version-dependent tables."""
+    from pyvc.runner import Unit
+    units = hc.build_for(world, "C04")
+    groups = {}
+    for name, q, ct, cls, case in hc.all_units(world):
+        tag = name[len(q):].split("]")[0].lstrip("[")
+        if tag in VSTR:
+            groups.setdefault(_group_key(name, q, case), {})[tag] = (name, ct, cls)
+    _GROUPS.clear()
+    _GROUPS.update({k: set(v) for k, v in groups.items()})
+    for (q, case), g in sorted(groups.items(), key=lambda kv: repr(kv[0])):
+        for a, b in zip(ORDER, ORDER[1:]):
+            if a in g and b in g:
+                na, cta, clsa = g[a]
+                nb, ctb, clsb = g[b]
+                u = Unit(f"{q}[{a}~{b}]" + "".join(f"[{c}]" for c in case), q, cta, receiver=clsa, case=case)
+                u.relational = (ctb, clsb, a, b, confirm, {"domain": make_domain(world), "skip_pair": skip_pair})
+                units.append(u)
+    return units
+
+
+def make_domain(world):
+    """The histories C19 speaks about, as a constraint on the symbolic message: its (command, type) exists in the older
+    version; not the heartbeat response towards 2.2; not gateway-ready across 1.x -> 2.x."""
+    import z3
+    tables = {}
+    for tag in ORDER:
+        ns = world.modules[hcx.PROTO + "protocol_" + tag].ns
+        tables[tag] = {nm: sorted(ns[nm].enum_canon) for nm in ("Presentation", "SetReq", "Internal", "Stream")}
+
+    def domain(I, env, ta, tb):
+        m = env.get("message")
+        if m is None:
+            return None
+        try:
+            k = I.to_term(I.read_field(m, "command"), TInt)
+            t = I.to_term(I.read_field(m, "message_type"), TInt)
+        except Exception:  # noqa: BLE001
+            return None
+        tv = tables[ta]
+        inn = lambda vals: z3.Or(*[t == v for v in vals]) if vals else z3.BoolVal(False)  # noqa: E731
+        dom = z3.Or(z3.And(k == 0, inn(tv["Presentation"])), z3.And(z3.Or(k == 1, k == 2), inn(tv["SetReq"])),
+                    z3.And(k == 3, inn(tv["Internal"])), z3.And(k == 4, inn(tv["Stream"])))
+        if tb == "22" and ta < "22":
+            dom = z3.And(dom, z3.Not(z3.And(k == 3, t == 22)))
+        if ta < "20" <= tb:
+            dom = z3.And(dom, z3.Not(z3.And(k == 3, t == 14)))
+        return dom
+    return domain
+
+
+def skip_pair(ka, kb, ta, tb):
+    # across 1.x -> 2.x histories that reference an unknown node or child are outside the property
+    return ta < "20" <= tb and any(k in ("raise:MissingNodeError", "raise:MissingChildError") for k in (ka, kb))
+
+
+def owns(ob_):
+    """C19 owns a conformance clause (C04/C06/C07/C10) only in a function that not every version resolves to: a deviation of code
+    shared by all five versions is the same deviation in all of them (decided by the relational units), not a difference."""
+    if ob_["name"].split("/")[0] == "C19" or "C19" in ob_["name"].split("/")[0].split("+"):
+        return True
+    uname = ob_.get("unit", "")
+    q = uname.split("[")[0]
+    covered = set()
+    for (gq, case), tags in _GROUPS.items():
+        if gq == q:
+            covered |= tags
+    return bool(covered) and covered != set(ORDER)
+
+
+def _exists_in(version, command, mtype):
+    native.import_repo()
+    from aiomysensors.model.protocol import get_protocol
+    p = get_protocol(version)
+    table = {0: p.Presentation, 1: p.SetReq, 2: p.SetReq, 3: p.Internal, 4: p.Stream}.get(command)
+    try:
+        table(mtype)
+        return True
+    except (ValueError, TypeError):
+        return False
+
+
+def _run_one(version, st, metric, line):
+    gw, tr = native.make_gateway(version, (), metric=metric)
+    rm.install_state(gw, rm.Ref(version, metric), st)
+    tr.reads.append(line)
+    try:
+        m = native.run(gw.listen().__anext__())
+        out = ("yield", m.node_id, m.child_id, m.command, m.ack, m.message_type, m.payload)
+    except Exception as e:  # noqa: BLE001
+        out = ("error", type(e).__name__)
+    buf = sorted((k, v.payload) for k, v in gw._message_buffer.set_messages.items())
+    return out, rm.real_view(gw), list(tr.writes), buf
+
+
+def excluded(va, vb, fields, ra, rb):
+    n, c, k, a, t = fields
+    if not _exists_in(va, k, t):
+        return True  # the property speaks about message types of the older protocol
+    if k == 3 and t == 22 and vb == "2.2" and va < "2.2":
+        return True  # the stated exception: the heartbeat response wakes in 2.0/2.1 only
+    if va < "2.0" <= vb:
+        if k == 3 and t == 14:
+            return True  # gateway ready, excluded across 1.x -> 2.x
+        if any(r[0] == ("error", e) for r in (ra, rb) for e in ("MissingNodeError", "MissingChildError")):
+            return True  # an unknown node or child is referenced
+    return False
+
+
+def confirm(desc, ta, tb):
+    """Native replay of a relational candidate: the model's pre-state and message under both versions on the real code."""
+    va, vb = VSTR[ta], VSTR[tb]
+    st, mver, metric = hn.state_from_model(desc)
+    msg = desc.get("message") or {}
+    fields = [msg.get(f) for f in ("node_id", "child_id", "command", "ack", "message_type")]
+    if not all(isinstance(x, int) for x in fields):
+        return None
+    n, c, k, a, t = fields
+    a = a if a in (0, 1) else 0
+    payloads = [msg.get("payload")] if isinstance(msg.get("payload"), str) else []
+    payloads += [p for p in hn.PAYLOAD_POOL if p not in payloads]
+    for p in payloads[:8]:
+        line = rm.enc(n, c, k, a, t, p)
+        if rm.decode(line) is None:
+            continue
+        ra, rb = _run_one(va, st, metric, line), _run_one(vb, st, metric, line)
+        if ra != rb and not excluded(va, vb, (n, c, k, a, t), ra, rb):
+            return {"confirmed": True, "versions": [va, vb], "pre_state": hn._jsonable(st), "line": line,
+                    "observed": {va: [ra[0], ra[2]], vb: [rb[0], rb[2]]},
+                    "registry_differs": ra[1] != rb[1], "buffer_differs": ra[3] != rb[3]}
+    return None
 
 
 def replay(world, ob_):
+    if ob_.get("relational"):
+        return dict(ob_.get("model") or {}, confirmed=bool(ob_.get("model")))
     return hn.replay("C04", world, ob_)
 
 
